@@ -18,7 +18,8 @@ in `harness/src/c05.rs`.  Paths and header values are ASCII (what a URI can carr
 `char::is_numeric` is therefore `isDigit`.
 
 The model describes the code AFTER the F9 repair (`fix:` commits in /repo): an empty part list and
-out-of-range coordinates give 404.  The places that can still panic are explicit (`Resp.panic`).
+out-of-range coordinates give 404; and after the `ok_data` repair: a stored blob that cannot be decoded when
+it has to be gives 500 instead of a panic (`expect`).  Places that could still panic are explicit (`Resp.panic`).
 -/
 namespace VtModel.Http
 open VtModel.Codec
@@ -159,6 +160,7 @@ inductive Resp where
   | ok (ctype : String) (cenc : Option String) (comp : Comp) (body : Bytes)
   | notFound
   | badRequest
+  | serverError                        -- 500: the stored blob cannot be brought into an acceptable encoding
   | panic (site : String)
 deriving Repr, DecidableEq
 
@@ -171,7 +173,7 @@ def encToken : Comp → Option String
 def okData (K : Codec) (r : SrcResp) (accept : Option String) (fast : Bool) : Resp :=
   match optimize K r.blob r.comp (targetFor accept fast r.mime) with
   | .ok (b, c) => .ok r.mime (encToken c) c b
-  | .err => .panic "tile_server.rs:274 expect(should have optimized compression)"
+  | .err => .serverError              -- (repair; was `.expect("should have optimized compression")` → panic)
   | .panic s => .panic s
 
 /-- `serve_tile` for a request whose path starts with the source's prefix.  An empty `rest` does not
@@ -188,7 +190,89 @@ def Resp.status : Resp → Option Nat
   | .ok .. => some 200
   | .notFound => some 404
   | .badRequest => some 400
+  | .serverError => some 500
   | .panic _ => none
+
+/-! ### static routes (`serve_static`, tile_server.rs:170-207; `sources/static_source_{tar,folder}.rs`)
+
+Path handling (prefix, `..`, OS resolution) is C07's subject; here a static source is a function from the
+request path to the stored variants of a file, and the subject is the negotiation. -/
+
+/-- the stored variants of one file: plain, `.gz`, `.br` (`FileEntry`) -/
+structure StaticEntry where
+  un : Option Bytes
+  gz : Option Bytes
+  br : Option Bytes
+  mime : String
+
+inductive StaticKind where
+  | tar | folder
+deriving DecidableEq, Repr
+
+/-- `TarFile::get_data` (static_source_tar.rs:143-173): a precompressed variant the client accepts
+    (brotli first), else the plain file, else whatever exists (brotli first) -/
+def tarSelect (e : StaticEntry) (t : Target) : Option (Bytes × Comp) :=
+  match (if t.brotli then e.br else none) with
+  | some b => some (b, .brotli)
+  | none =>
+    match (if t.gzip then e.gz else none) with
+    | some b => some (b, .gzip)
+    | none =>
+      match e.un with
+      | some b => some (b, .raw)
+      | none =>
+        match e.br with
+        | some b => some (b, .brotli)
+        | none =>
+          match e.gz with
+          | some b => some (b, .gzip)
+          | none => none
+
+/-- `Folder::get_data` (static_source_folder.rs:76-84): the plain file, else `<file>.br`, else `<file>.gz`;
+    the header is not consulted -/
+def folderSelect (e : StaticEntry) : Option (Bytes × Comp) :=
+  match e.un with
+  | some b => some (b, .raw)
+  | none =>
+    match e.br with
+    | some b => some (b, .brotli)
+    | none =>
+      match e.gz with
+      | some b => some (b, .gzip)
+      | none => none
+
+structure StaticSrc where
+  kind : StaticKind
+  files : String → Option StaticEntry
+
+def StaticSrc.get (s : StaticSrc) (path : String) (t : Target) : Option SrcResp :=
+  match s.files path with
+  | none => none
+  | some e =>
+    match (match s.kind with | .tar => tarSelect e t | .folder => folderSelect e) with
+    | none => none
+    | some (b, c) => some { blob := b, comp := c, mime := e.mime }
+
+/-- the target `serve_static` hands to the sources: `get_encoding` + `--fast` (the MIME rule is applied later,
+    inside `ok_data`) -/
+def staticTarget (accept : Option String) (fast : Bool) : Target :=
+  let t := getEncoding accept
+  if fast then { t with goal := .fast } else t
+
+def firstHit (srcs : List StaticSrc) (path : String) (t : Target) : Option SrcResp :=
+  match srcs with
+  | [] => none
+  | s :: rest =>
+    match s.get path t with
+    | some r => some r
+    | none => firstHit rest path t
+
+/-- `serve_static`: a directory URL gets `index.html`, the sources are asked in order, first hit wins -/
+def serveStatic (K : Codec) (srcs : List StaticSrc) (path : String) (accept : Option String) (fast : Bool) : Resp :=
+  let path := if path.endsWith "/" then path ++ "index.html" else path
+  match firstHit srcs path (staticTarget accept fast) with
+  | some r => okData K r accept fast
+  | none => .notFound
 
 /-! ### line protocol (stream `C05`)
 
@@ -197,6 +281,9 @@ def Resp.status : Resp → Option Nat
      (`tiles` = coordinates held by the container; header value and path as hex of ASCII bytes)
 * `C05 req2 <fast> <flip> <swap> <declared comp> <override comp|-> <format> <tiles> <accept hex|~> <rest hex>`
      → same answers; the stored blobs are valid streams of the EFFECTIVE compression (override, else declared)
+* `C05 req3 … <corrupt 0|1>` – as `req2`; with `1` the stored blobs are NOT valid streams of the effective compression
+* `C05 static <fast> <tar|folder> <un><gz><br> <mime hex> <accept hex|~>` – one static source holding one file with the
+     given variants (0/1 each), all carrying the same content → `200 ct=… ce=…` | `404`
 * `C05 opt <comp> <raw><gzip><brotli> <fast|best|inc> <enc|nil|cut> <payload hex>`
      → `err` | `c=<comp> same=<0|1> dec=<hex|err>`   (real `optimize_compression`)
 * `C05 enc <accept hex|~>` → `gzip=<0|1> br=<0|1>`   (`get_encoding`, used for the unit-level stream)
@@ -227,6 +314,7 @@ def showResp : Resp → String
   | .ok ct ce _ _ => s!"200 ct={ct} ce={ce.getD "-"}"
   | .notFound => "404"
   | .badRequest => "400"
+  | .serverError => "500"
   | .panic _ => "panic"
 
 def handle (args : List String) : String :=
@@ -255,6 +343,35 @@ def handle (args : List String) : String :=
         tilejson := [123, 125] }
       showResp (serveTile toy src { rest := rest, accept := acc, fast := fast })
     | _, _, _, _, _, _, _, _ => "bad-op"
+  | ["req3", fast, flip, swap, declared, ovr, fmt, tiles, accept, rest, corrupt] =>
+    let acc : Option (Option String) := if accept == "~" then some none else (parseHexStr accept).map some
+    let ov : Option (Option Comp) := if ovr == "-" then some none else (parseComp ovr).map some
+    match parseBool fast, parseBool flip, parseBool swap, parseComp declared, ov, parseTiles tiles, acc, parseHexStr rest, parseBool corrupt with
+    | some fast, some flip, some swap, some declared, some ov, some tiles, some acc, some rest, some corrupt =>
+      let payload : Bytes := [1, 2, 3]
+      let comp := effectiveComp declared ov
+      -- an invalid stream: the empty blob (rejected by every non-raw decoder, law `dec_nil`)
+      let blob : Bytes := if corrupt then [] else toy.enc comp payload
+      let src : Source := {
+        comp := comp, mime := mimeOf fmt, flipY := flip, swapXY := swap,
+        lookup := fun z x y => if tiles.contains (z, x, y) then some blob else none,
+        tilejson := [123, 125] }
+      showResp (serveTile toy src { rest := rest, accept := acc, fast := fast })
+    | _, _, _, _, _, _, _, _, _ => "bad-op"
+  | ["static", fast, kind, bits, mime, accept] =>
+    let acc : Option (Option String) := if accept == "~" then some none else (parseHexStr accept).map some
+    let k : Option StaticKind := if kind == "tar" then some .tar else if kind == "folder" then some .folder else none
+    match parseBool fast, k, bits.toList, parseHexStr mime, acc with
+    | some fast, some k, [u, g, b], some mime, some acc =>
+      let content : Bytes := [7, 7, 7]
+      let e : StaticEntry := {
+        un := if u == '1' then some content else none,
+        gz := if g == '1' then some (toy.enc .gzip content) else none,
+        br := if b == '1' then some (toy.enc .brotli content) else none,
+        mime := mime }
+      let src : StaticSrc := { kind := k, files := fun p => if p == "/f" then some e else none }
+      showResp (serveStatic toy [src] "/f" acc fast)
+    | _, _, _, _, _ => "bad-op"
   | ["opt", comp, bits, goal, kind, payload] =>
     match parseComp comp, bits.toList, parseGoal goal, unhex payload with
     | some c, [r, g, b], some goal, some payload =>
